@@ -13,9 +13,10 @@
 //     set<T>Data                   data store written through C, read through C++ (type name, typed getter) and through getData of C
 //     receiver                     two scopes: the C return-value entries of MockSupport_c / hasReturnValue of MockActualCall_c
 //                                  against the C++ methods of the same name (see contracts/C19.undecided.txt)
+//     stale                        MockSupport_c.intReturnValue after clear(): the static actual-call pointer dangles (sanitizer report = exit != 0)
 //   <T> = Bool Int UnsignedInt LongInt UnsignedLongInt LongLongInt UnsignedLongLongInt Double String Pointer ConstPointer
 //   value=...  (or g_ret_<kind>=... for the getters; defaultValue=..., g_act_has=...): the counterexample of the proof; without
-//   it the boundary values 0, 1, -1, 2^31, 2^32+5, 2^63, 2^63-1 (0.5, -0.0, 1e300 for double) are all run.
+//   it, and in addition to it, the boundary values 0, 1, 2, -1, 2^31, 2^32+5, 2^63, 2^63-1 (0.5, -0.0, 1e300, -1, 0.1 for double) are run.
 // REPLAY-EXT
 #include "CppUTest/TestHarness.h"
 #include "CppUTest/TestRegistry.h"
@@ -312,6 +313,25 @@ static void receiverBody()
     mock().clear();
 }
 
+/* ---- the stale-pointer scenario: the typed getter of MockSupport_c after clear() (no actual call any more) ---- */
+static int stale_c, stale_cpp;
+static void staleBody()
+{
+    mock().clear();
+    if (viaC) {
+        mock_c()->expectOneCall("f")->andReturnIntValue(1);
+        mock_c()->actualCall("f");
+        mock_c()->clear();                                   /* deletes the actual call the static pointer still names */
+        stale_c = mock_c()->intReturnValue();
+    } else {
+        mock().expectOneCall("f").andReturnValue(1);
+        mock().actualCall("f");
+        mock().clear();
+        stale_cpp = mock().intReturnValue();                 /* no actual call: a test failure (type mismatch), nothing undefined */
+    }
+    mock().clear();
+}
+
 static Kind kindOf(const char *s)
 {
     Kind best = K_NONE; size_t bl = 0;
@@ -375,6 +395,13 @@ int main(int argc, char **argv)
         NOT_REPRODUCED("same answers");
     }
 
+    if (!strcmp(entry, "stale")) {
+        size_t fp;
+        viaC = false; { TestTestingFixture f; f.setTestFunction(staleBody); f.runAllTests(); fp = f.getFailureCount(); }
+        printf("C++: mock().intReturnValue() after clear(): %d test failure(s), no undefined behaviour\n", (int)fp);
+        viaC = true; { TestTestingFixture f; f.setTestFunction(staleBody); f.runAllTests(); printf("C: %d test failure(s)\n", (int)f.getFailureCount()); }
+        NOT_REPRODUCED("the C run survived the address sanitizer");
+    }
     const char *e = entry; bool act = !strncmp(entry, "actual.", 7); if (act) e += 7;
     kind = kindOf(e);
     if (!strcmp(e, "returnValue")) mode = "returnValue";
@@ -404,11 +431,12 @@ int main(int argc, char **argv)
             if (vname && k0 == k1) {
                 val.bits = r_u64(vname, 0); val.d = r_double(vname, 0.0);
                 bad += compareOne(entry); runs++;
-            } else {
-                for (unsigned i = 0; i < sizeof ints / sizeof ints[0]; i++) {
-                    val.bits = ints[i]; val.d = dbls[i % (sizeof dbls / sizeof dbls[0])];
-                    bad += compareOne(entry); runs++;
-                }
+            }
+            /* a forwarder wired to the wrong type shows only on a value that does not survive the wrong conversion: the
+               counterexample of a wrong-method obligation carries an arbitrary value, so the boundary values are run as well */
+            for (unsigned i = 0; i < sizeof ints / sizeof ints[0]; i++) {
+                val.bits = ints[i]; val.d = dbls[i % (sizeof dbls / sizeof dbls[0])];
+                bad += compareOne(entry); runs++;
             }
         }
     }
